@@ -110,7 +110,17 @@ def run_search(ctx):
     ctx.sample(evs[3])
     total += n
     selftest(ctx, trace)
-    ctx.cov["traces_validated_against_impl"] = total
+    # the running system: searches through every one of three real server processes (partitions spread with two
+    # replicas each, every search fans out to real peers), before and after kill -9 / restart and with a node down:
+    # the 5 nearest are the 5 nearest of the full result, which holds exactly the acknowledged items
+    import clusfam
+    lines, nbad = clusfam.real_server_kinds(ctx, ["durable"], {"TopKNotUnion", "AckedLostOnRestart", "GhostAfterRestart"}, 1 if quick else 3)
+    nsr = sum(1 for x in lines if '"ev":"found"' in x and '"err":""' in x)
+    ctx.log("real servers: %d fan-out searches checked against the acknowledged writes: %d failed checks" % (nsr, nbad))
+    if nsr == 0:
+        raise vlib.NoVerdict("no search result was obtained from the real servers")
+    ctx.cov["real_server_searches_checked"] = nsr
+    ctx.cov["traces_validated_against_impl"] = total + 1
     ctx.cov["schedules_available"] = ns
     ctx.assumptions += ["Go's choice among ready select cases is not controllable: each schedule fixes the state in which the choice is made, and many schedules reach each state",
                         "remote nodes are scripted gRPC servers; only the caller (storage.Dataset) is under test",
@@ -137,6 +147,16 @@ def run_size(ctx):
     ctx.log("SizeInfo: %d of %d TLC schedules forced on the real Dataset: %d failed checks" % (n, ns, len(viols)))
     ctx.sample(evs[5])
     selftest(ctx, trace)
-    ctx.cov["traces_validated_against_impl"] = n
+    # the running system: three real server processes, a dataset of four partitions with two replicas each, writes
+    # through every node; the size every node reports (its local partitions + lookups at the real peers) is the
+    # number of live items - also after kill -9 / restart and with one node down
+    import clusfam
+    lines, nbad = clusfam.real_server_kinds(ctx, ["durable"], {"SizeNotSum"}, 1 if quick else 3)
+    nsz = sum(1 for x in lines if '"ev":"found"' in x and '"sizeerr":""' in x)
+    ctx.log("real servers: %d dataset sizes reported by the nodes checked against the acknowledged writes: %d failed checks" % (nsz, nbad))
+    if nsz == 0:
+        raise vlib.NoVerdict("no dataset size was obtained from the real servers")
+    ctx.cov["real_server_sizes_checked"] = nsz
+    ctx.cov["traces_validated_against_impl"] = n + 1
     ctx.assumptions += ["remote nodes are scripted gRPC servers with distinct power-of-two sizes, so a double count or a missed partition changes the sum"]
     return "model_checking"
